@@ -76,20 +76,16 @@ impl<T: RtpsWriter> DataWriterEntity<T> {
         message_writer: &(impl WriteMessage + ?Sized),
         runtime: &impl DdsRuntime,
     ) -> DdsResult<()> {
-        if !self
+        // The instance of the sample is registered implicitly, but only once the write is known to be accepted: a
+        // refused write stores nothing
+        let is_new_instance = !self
             .registered_instance_info
             .iter()
-            .any(|x| x.instance_handle == sample_instance_handle)
+            .any(|x| x.instance_handle == sample_instance_handle);
+        if is_new_instance
+            && self.registered_instance_info.len() >= self.qos.resource_limits.max_instances
         {
-            if self.registered_instance_info.len() < self.qos.resource_limits.max_instances {
-                self.registered_instance_info.push(RegisteredInstanceInfo {
-                    instance_handle: sample_instance_handle,
-                    last_write_time: None,
-                    samples: VecDeque::new(),
-                });
-            } else {
-                return Err(DdsError::OutOfResources);
-            }
+            return Err(DdsError::OutOfResources);
         }
 
         if let Length::Limited(max_samples_per_instance) =
@@ -124,6 +120,14 @@ impl<T: RtpsWriter> DataWriterEntity<T> {
             if total_samples >= max_samples as usize {
                 return Err(DdsError::OutOfResources);
             }
+        }
+
+        if is_new_instance {
+            self.registered_instance_info.push(RegisteredInstanceInfo {
+                instance_handle: sample_instance_handle,
+                last_write_time: None,
+                samples: VecDeque::new(),
+            });
         }
 
         // A sample that is already expired is never sent: it must not take a sequence number either, because
